@@ -73,7 +73,7 @@ let run f = match f with
   | ["step"; c; k; now; fs; tag; h] ->
     let k = match String.split_on_char ':' k with
       | ["snapshot"; f; d] -> CSnapshot (f = "1", d = "1")
-      | ["check"; a; p] -> CCheck (a = "1", p = "1")
+      | ["check"; a; p; r] -> CCheck (a = "1", p = "1", r = "1")
       | _ -> CStats in
     let (h', ov) = step (cfg c) k (n_of_string now) (pfiles fs) (n_of_string tag) (entries h) in
     (if ov then "OVF " else "H ") ^ fmt_entries h'
